@@ -21,6 +21,7 @@ type InjErr struct {
 	Fn, Exec int
 	Inner    error
 	Cycle    bool // Inner is a foreign CYCLE rejection
+	Raw      bool // fault kind "rawdigerr": the function returned Inner ITSELF, not this error wrapping it
 }
 
 func (e *InjErr) Error() string {
@@ -166,6 +167,13 @@ func (r *ExecRec) errVal() error {
 		return r.ErrV
 	}
 	return r.Err
+}
+
+// safeIs is errors.Is, with a panic of the comparison itself reported instead of propagated (comparing two
+// interface values that hold the same uncomparable dynamic type panics).
+func safeIs(err, target error) (is bool, pan interface{}) {
+	defer func() { pan = recover() }()
+	return errors.Is(err, target), nil
 }
 
 // OpRec is the observable outcome of one API call.
@@ -648,7 +656,7 @@ func (w *World) body(m *mat, args []reflect.Value) []reflect.Value {
 		}
 		panic(ip)
 	}
-	failed := (fault == "err" || fault == "digerr" || fault == "digcycerr") && f.HasErr
+	failed := (fault == "err" || fault == "digerr" || fault == "digcycerr" || fault == "rawdigerr") && f.HasErr
 	rec.Toks = map[int][]*Tok{}
 	outs := make([]reflect.Value, len(m.outs))
 	for i, t := range m.outs {
@@ -686,7 +694,7 @@ func (w *World) body(m *mat, args []reflect.Value) []reflect.Value {
 	if f.HasErr {
 		if failed {
 			rec.Err = &InjErr{Fn: f.ID, Exec: exec}
-			if fault == "digerr" {
+			if fault == "digerr" || fault == "rawdigerr" {
 				rec.Err.Inner = foreignDigError()
 			}
 			if fault == "digcycerr" {
@@ -694,6 +702,11 @@ func (w *World) body(m *mat, args []reflect.Value) []reflect.Value {
 				rec.Err.Cycle = true
 			}
 			switch {
+			case fault == "rawdigerr":
+				// "return nil, sub.Invoke(...)": another container's dig error, returned as it is
+				rec.Err.Raw = true
+				rec.ErrV = rec.Err.Inner
+				outs[m.errIdx].Set(reflect.ValueOf(rec.ErrV))
 			case f.ErrType == 1 && f.Pool == 0:
 				outs[m.errIdx].Set(reflect.ValueOf(&TErr{Msg: rec.Err.Error()}))
 			case fault == "err" && (f.ID+exec)%5 == 3:
